@@ -214,6 +214,31 @@ CHECKS = {
         design_ref='DESIGN.md §2 C19; notes/C19.md',
         note='Trusted: the reference matcher. Open known findings F25 (terminus request with number) and F26 (backbone N lost for a few mutation pairs) are excluded by bucket. Hydrogens stripped on mutated residues in the repair part (LCS cost).',
         technique='Hypothesis round trip of the specification grammar; generated systems and requests vs. reference matcher; real-data repair checks'),
+    'C01': dict(
+        category='exploration',
+        text=('Toy force-field pairs with generated mappings (one-to-one, many-to-one, shared atoms, zero and non-unit weights, '
+              'particles built from no atom, unmapped hydrogens / heavy atoms, two-residue mappings built with MappingBuilder, a second '
+              'mapping for the same residue type that overlaps or splits it, reference atoms) on residue trees of 1-8 residues with '
+              'cross links, five residue-numbering schemes, four node-key schemes, missing atoms / broken bonds; run through do_mapping '
+              '/ DoMapping and compared with a plain-Python reference that finds placements by name (no Mapping.map, VF2, ISMAGS or '
+              'merge_molecule) and predicts bead order, attributes, consecutive resids, _old_resid, graph, mapping_weights, block edges, '
+              'inter-placement edges, interactions, and both warnings in both directions. A second part maps random charmm peptides '
+              '(chain breaks, disulfide, missing atom) to martini3001 with the shipped mappings and the CLI arguments.'),
+        design_ref='DESIGN.md §2 C01; notes/C01.md',
+        note='Trusted: the reference pbt/c01_ref_mapping.py. Modification mappings (apply_mod_mapping) are not exercised. Cases with more than 24 placements are skipped (1-3 %).',
+        technique='Hypothesis generated mappings and molecules vs. independent reference implementation (two-directional, incl. warnings)'),
+    'C04': dict(
+        category='exploration',
+        text=('Every eligible block of the shipped charmm, amber and gromos force fields is presented to RepairGraph in generated '
+              'presentations: names replaced (all / hydrogens / heavy / a few; fresh, swapped round, element-only, absent, empty), node '
+              'order permuted, sparse keys, up to 40 % of atoms removed, 1-3 extra atoms of a foreign or the same element (possibly '
+              'carrying a block atom name), optionally a second residue bonded on. Validity predicate: names unique, the name map is an '
+              'element-preserving isomorphism onto the complete block, rebuilt atoms bonded as in the block and nothing more, flagged '
+              'count = input atoms - maximum common induced subgraph (by construction, or networkx VF2 over subsets), input bonds '
+              'unchanged; two presentations of one residue agree. Blocks are enumerated, presentations generated.'),
+        design_ref='DESIGN.md §2 C04; notes/C04.md',
+        note='Trusted: networkx VF2 for the maximum common subgraph; measured size bounds per presentation kind because ISMAGS LCS is exponential without name guidance (full scrambling only up to 14/15 atoms; 53 slow charmm blocks excluded by a static list). Two-letter elements and requested mutations (p6) not covered.',
+        technique='Enumeration of shipped blocks x Hypothesis generated presentations; validity predicate with networkx reference; metamorphic pair comparison'),
 }
 
 NOT_YET = 'check not built yet in this round (planned, see DESIGN.md §2)'
